@@ -318,6 +318,20 @@ func runC19a(e *env, tier string) {
 	// honest archetypes with different powers
 	groups := 1 + c.Intn(3)
 	left := n
+	advPower := int64(1) // the silent adversary must stay below one third so that the honest run terminates quickly
+	boundary := c.Chance(200)
+	if boundary {
+		// Raw powers summing to 65536 scale to raw-1 each, so the scaled total T = 65536-3 has
+		// 2T not divisible by 3, and one honest member holds exactly floor(2T/3): alone it is just
+		// short of a strong quorum, a decision it signs alone is under-powered by one unit.
+		n, groups, left = 2, 0, 0
+		advPower = int64(1 + c.Intn(3000))
+		T := int64(65536 - 3)
+		big := 2*T/3 + 1 // raw power whose scaled value is floor(2T/3)
+		opts = append(opts, sim.AddHonestParticipants(1, sim.NewUniformECChainGenerator(uint64(c.Intn(1000)), 1, 4), sim.UniformStoragePower(gpbft.NewStoragePower(big))))
+		opts = append(opts, sim.AddHonestParticipants(1, sim.NewUniformECChainGenerator(uint64(c.Intn(1000)), 1, 4), sim.UniformStoragePower(gpbft.NewStoragePower(65536-big-advPower))))
+		r.Probe("boundary_power_table")
+	}
 	for g := 0; g < groups && left > 0; g++ {
 		cnt := 1 + c.Intn(left)
 		if g == groups-1 {
@@ -329,9 +343,11 @@ func runC19a(e *env, tier string) {
 	}
 	instances := 1 + c.Pick([]int{50, 30, 20})
 	inj := &injector{e: e, variant: c.Intn(14), targetK: uint64(c.Intn(instances))}
+	if boundary && c.Chance(600) {
+		inj.variant = 1
+	}
 	var s *sim.Simulation
 	inj.simRef = &s
-	advPower := int64(1) // the silent adversary must stay below one third so that the honest run terminates quickly
 	opts = append(opts, sim.WithAdversary(func(id gpbft.ActorID, h adversary.Host) *adversary.Adversary {
 		inj.host, inj.id = h, id
 		return &adversary.Adversary{Receiver: inj, Power: gpbft.NewStoragePower(advPower), ID: id}
@@ -395,6 +411,31 @@ func runC19b(e *env, tier string) {
 	if err != nil {
 		e.fail("certchain_generate_failed", "generate", "certchain.Generate(%d) failed: %v", n, err)
 		return
+	}
+	if c.Chance(300) {
+		// the same generator asked again: a new chain (its random source has moved on), to which
+		// everything below applies just the same
+		n2 := 1 + c.Intn(n+2)
+		crts, err = cc.Generate(bg, uint64(n2))
+		r.Probe("certchain_generated_again")
+		r.Tracef("second Generate(%d)", n2)
+		if err != nil {
+			e.fail("certchain_generate_failed", "regenerate", "a second certchain.Generate(%d) on the same generator failed: %v", n2, err)
+			return
+		}
+		n = n2
+	}
+	if c.Chance(400) {
+		// a chain it generated must be accepted by a generator of its own kind over the same EC
+		cc2, err := certchain.New(certchain.WithEC(w), certchain.WithManifest(m), certchain.WithSignVerifier(g.Sig), certchain.WithSeed(int64(c.Intn(1<<30))))
+		if err != nil {
+			kernel.Infra("certchain.New: %v", err)
+		}
+		r.Probe("certchain_validated_by_fresh_instance")
+		if err := cc2.Validate(bg, crts); err != nil {
+			e.fail("certchain_rejects_own_chain", "validate", "a fresh certchain instance over the same EC and manifest rejects the generated chain of %d certificates: %v", len(crts), err)
+			return
+		}
 	}
 	// reference rule
 	refCommittee := func(k uint64) *ecworld.Block {
